@@ -33,6 +33,7 @@ import (
 	"github.com/evanw/esbuild/internal/fs"
 	"github.com/evanw/esbuild/internal/logger"
 	"github.com/evanw/esbuild/internal/resolver"
+	"github.com/evanw/esbuild/internal/verifhook"
 )
 
 // The time to wait between watch intervals
@@ -106,6 +107,7 @@ func (w *watcher) start() {
 
 			// Rebuild if we're dirty
 			if absPath := w.tryToFindDirtyPath(); absPath != "" {
+				verifhook.Emit("watch_dirty", 0, 0, absPath)
 				// Optionally wait before rebuilding
 				if w.delayInMS > 0 {
 					time.Sleep(w.delayInMS * time.Millisecond)
@@ -142,6 +144,7 @@ func (w *watcher) stop() {
 func (w *watcher) tryToFindDirtyPath() string {
 	defer w.mutex.Unlock()
 	w.mutex.Lock()
+	verifhook.Emit("watch_scan", uint64(len(w.itemsToScan)), uint64(len(w.data.Paths)), "")
 
 	// If we ran out of items to scan, fill the items back up in a random order
 	if len(w.itemsToScan) == 0 {
